@@ -22,34 +22,39 @@ abbrev RF := List Piece
 
 def polySum (ps : List Poly) : Poly := ps.foldl padd []
 
-/-- pieces of a curve: numerator `Σ w_i P_i N_i`, denominator `Σ w_i N_i` (or 1) on every span -/
+/-- weight of control point `i` (1 for polynomial curves) -/
+def wOf (W : Option (List Rat)) (i : Nat) : Rat :=
+  match W with
+  | none => 1
+  | some ws => nth ws i
+
+/-- local-coordinate polynomial `Σ_y c(y + sz − p) · table[y]` -/
+def localComb (polys : List Poly) (p sz : Nat) (c : Nat → Rat) : Poly :=
+  polySum ((List.range (p + 1)).map fun y => pscale (c (y + sz - p)) (polys.getD y []))
+
+/-- the piece of span `z`: numerator `Σ w_i P_i[d] N_i`, denominator `Σ w_i N_i` (or 1), in the variable `u` -/
+def pieceOf (k : KV) (t : Table) (pts : List Vec) (W : Option (List Rat)) (dim z : Nat) : Piece :=
+  let kz := nth t.knots z
+  let kz1 := nth t.knots (z + 1)
+  let h := kz1 - kz
+  let sz := t.spans.getD z 0
+  let polys := t.polys.getD z []
+  let toU (q : Poly) : Poly := pcompLin q (-kz / h) (1 / h)
+  { a := kz, b := kz1,
+    num := (List.range dim).map fun d =>
+      toU (localComb polys k.deg sz fun i => wOf W i * nth (pts.getD i []) d),
+    den := match W with
+      | none => [1]
+      | some _ => toU (localComb polys k.deg sz (wOf W)) }
+
+/-- pieces of a curve, one per non-empty span -/
 def RF.ofCurve (c : Curve) : Except Err RF := do
   let pts ← match c.P with
     | some p => pure p
     | none => throw .value
-  let k := c.kv
-  let p := k.deg
-  let t ← speval k p
+  let t ← speval c.kv c.kv.deg
   let dim := (pts.headD []).length
-  let n := t.knots.length - 1
-  return (List.range n).map fun z =>
-    let kz := nth t.knots z
-    let kz1 := nth t.knots (z + 1)
-    let h := kz1 - kz
-    let sz := t.spans.getD z 0
-    let polys := t.polys.getD z []
-    let toU (q : Poly) : Poly := pcompLin q (-kz / h) (1 / h)
-    let wOf (i : Nat) : Rat := match c.W with
-      | none => 1
-      | some ws => nth ws i
-    let num := (List.range dim).map fun d =>
-      toU (polySum ((List.range (p + 1)).map fun y =>
-        let i := y + sz - p
-        pscale (wOf i * nth (pts.getD i []) d) (polys.getD y [])))
-    let den := match c.W with
-      | none => [1]
-      | some _ => toU (polySum ((List.range (p + 1)).map fun y => pscale (wOf (y + sz - p)) (polys.getD y [])))
-    { a := kz, b := kz1, num := num, den := den }
+  return (List.range (t.knots.length - 1)).map (pieceOf c.kv t pts c.W dim)
 
 /-- value of a piecewise rational function (right-continuous, last piece closed) -/
 def RF.eval (f : RF) (u : Rat) : Option Vec :=
